@@ -11,8 +11,8 @@ from vlib.refmodel import RefModel, pars_to_flat
 ID = "C14"
 LEVEL = "exploration"
 RULE = (
-    "(i) Hypothesis-generated sample vectors with ties/duplicates and observed values inside, outside and "
-    "equal to samples on 4 backends: EmpiricalDistribution.pvalue == count(s>=v)/len exactly, in [0,1], "
+    "(i) Hypothesis-generated sample vectors of either sign with ties/duplicates and observed values inside, "
+    "outside, equal to samples, their float neighbours and relative 1e-8 / 1e-12 near misses on 4 backends: EmpiricalDistribution.pvalue == count(s>=v)/len exactly, in [0,1], "
     "non-increasing. (ii) generated specs x parameter points x sample shapes: sample shape, non-negative "
     "integer main counts, per-bin mean and variance within 6 standard errors of the expected rate (4000 "
     "draws), auxiliary normal (mean theta, sd sigma) and Poisson (mean gamma*tau, integer) draws. (iii) "
